@@ -307,7 +307,7 @@ def _gen_init(rng: random.Random, shape: tuple[int, ...], *, positive: bool, dty
         elif r < 0.5:
             bshape = [1] * len(shape)
         akind = "complex" if dtype == "complex" and rng.random() < 0.6 else rng.choice(
-            ["float", "float", "float32", "int"])
+            ["float", "float", "float32", "int", "near", "tiny"])
         val = {"array": rng.randrange(10**6), "bshape": bshape, "dtype": akind}
         if twins is not None and akind == "float" and bshape is None:
             twins.append({"shape": list(shape), "dtype": dtype, "value": val})
